@@ -3213,7 +3213,7 @@ int  bufr_dataset_compressible( BUFR_Dataset *dts )
  * the above test should be enough, will skip the following test is slowing down very large dataset
 
 */
-#if 0
+      next_31 = 0;
       for (j = 0; j < count ; j++ )
          {
          coderef = bufr_datasubset_get_descriptor( subsetref, j );
@@ -3245,7 +3245,6 @@ int  bufr_dataset_compressible( BUFR_Dataset *dts )
                }
             }
          }
-#endif
       }
    return 1;
    }
